@@ -101,6 +101,28 @@ pub fn generate(r: &mut Runner) {
         c.ops.extend(cont.into_iter().filter(|o| *o != Op::Reset));
         r.run(c, true);
     }
+    // boundary periods for the allocation-free constructors (a payload that narrows `usize` is only wrong there)
+    for name in ind::NAMES {
+        let (np, _) = ind::arity(name).unwrap();
+        if np == 0 || !super::c11::alloc_free(name) {
+            continue;
+        }
+        let big: [usize; 6] = [(1 << 32) - 1, 1 << 32, (1 << 32) + 9, (1 << 53) + 1, usize::MAX - 1, usize::MAX];
+        for pos in 0..np {
+            for b in big {
+                let (mut ps, ms) = crate::diff::params_for(&mut r.rng, name, 16);
+                ps[pos] = b;
+                let mut c = Case::new("C06", "boundary-period", name, &ps, &ms);
+                c.ops.push(Op::Mark);
+                let h = super::c04::history(r, name, 5, 0.0, 100.0);
+                c.ops.extend(h.into_iter().filter(|o| *o != Op::Reset));
+                c.ops.push(Op::Mark);
+                let cont = super::c04::history(r, name, 6, 0.0, 100.0);
+                c.ops.extend(cont.into_iter().filter(|o| *o != Op::Reset));
+                r.run(c, true);
+            }
+        }
+    }
     let dcases = if r.tier == Tier::Quick { 200 } else { 5000 };
     for _ in 0..dcases {
         let mut c = Case::new("C06", "dataitem", "DataItem", &[], &[]);
@@ -115,4 +137,4 @@ pub fn generate(r: &mut Runner) {
     }
 }
 
-pub const RULE: &str = "every-prefix: for periods 1..=4 a checkpoint (bincode serialize + deserialize) is taken on the fresh instance, after EVERY input of a history of 2n+3 inputs, and right after a reset; every restored copy is then fed all remaining inputs plus a continuation of >= n+2 inputs alongside the original (1e-12 relative, NaN = NaN), parameters and Display compared, and each copy is round-tripped a second time (bytes must be stable). random-position: periods to 64, histories to 400 inputs (2% non-finite in one case of seven), one checkpoint. dataitem: built DataItems round-trip to an equal value. All cases non-trivial.";
+pub const RULE: &str = "every-prefix: for periods 1..=4 a checkpoint (bincode serialize + deserialize) is taken on the fresh instance, after EVERY input of a history of 2n+3 inputs, and right after a reset; every restored copy is then fed all remaining inputs plus a continuation of >= n+2 inputs alongside the original (1e-12 relative, NaN = NaN), parameters and Display compared, and each copy is round-tripped a second time (bytes must be stable). random-position: periods to 64, histories to 400 inputs (2% non-finite in one case of seven), one checkpoint. boundary-period: periods 2^32-1, 2^32, 2^32+9, 2^53+1, usize::MAX-1, usize::MAX in each position for the allocation-free constructors, checkpoints on the fresh instance and after 5 inputs. dataitem: built DataItems round-trip to an equal value. All cases non-trivial.";
